@@ -308,6 +308,8 @@ pub fn diff(a_name: &str, a: &ObjSet, b_name: &str, b: &ObjSet) -> Option<String
 pub struct ClientMemory {
     pub session: String,
     pub seen: BTreeMap<u64, ObjSet>,
+    /// Simulated time at which each serial was first seen.
+    pub first_seen: BTreeMap<u64, i64>,
     pub sessions_seen: u64,
     pub observations: u64,
     pub catch_ups_checked: u64,
@@ -321,16 +323,44 @@ impl ClientMemory {
     /// the last observation.
     pub fn observe(
         &mut self, view: &RrdpView, reset_expected: bool, max_nr: usize,
+        min_nr: usize, min_seconds: i64, now_secs: i64,
     ) -> Vec<String> {
         let mut problems = Vec::new();
         self.observations += 1;
         self.max_deltas_seen = std::cmp::max(
             self.max_deltas_seen, view.delta_serials.len()
         );
+        if view.session == self.session {
+            self.first_seen.entry(view.serial).or_insert(now_secs);
+        }
         if view.delta_serials.len() > max_nr {
+            // The deltas beyond the newest `max_nr`.
+            let excess = &view.delta_serials[
+                ..view.delta_serials.len() - max_nr
+            ];
+            // Retention is decided when an update is made: ages count
+            // at the time the current serial appeared.
+            let t_ref = self.first_seen.get(&view.serial).copied()
+                .unwrap_or(now_secs);
+            // The minimum rules: `min_nr` deltas besides the new one are
+            // always kept, and so is every delta younger than
+            // `min_seconds`.
+            let all_young = view.session == self.session
+                && excess.iter().enumerate().all(|(i, s)| {
+                    let within_min_nr = view.delta_serials.len() - i
+                        <= min_nr + 1;
+                    within_min_nr || self.first_seen.get(s).map(|t| {
+                        t_ref - *t <= min_seconds
+                    }).unwrap_or(false)
+                });
             problems.push(format!(
-                "{} deltas are retained, the configured maximum is {max_nr}",
-                view.delta_serials.len()
+                "{} deltas are retained, the configured maximum is \
+                 {max_nr}{}",
+                view.delta_serials.len(),
+                if all_young {
+                    " (all surplus deltas are covered by the minimum \
+                     rules rrdp_delta_files_min_nr / _min_seconds)"
+                } else { "" }
             ));
         }
         if view.session != self.session {
@@ -356,6 +386,8 @@ impl ClientMemory {
             }
             self.session = view.session.clone();
             self.seen.clear();
+            self.first_seen.clear();
+            self.first_seen.insert(view.serial, now_secs);
             self.sessions_seen += 1;
         }
         else if let Some((&last, _)) = self.seen.iter().next_back() {
